@@ -114,7 +114,7 @@ def run_tlc(module, cfg_text, *, workers=None, simulate=None, depth=None, seed=N
             m = re.match(r"^The depth of the complete state graph search is (\d+)", line)
             if m:
                 res.depth = int(m.group(1))
-            m = re.match(r"^<(\w+) line \d+, col \d+ to line \d+, col \d+ of module (\w+)>: (\d+):(\d+)", line)
+            m = re.match(r"^<(\w+) line \d+, col \d+ to line \d+, col \d+ of module (\w+)(?: \([\d ]+\))?>: (\d+):(\d+)", line)
             if m:
                 res.coverage[m.group(1)] = res.coverage.get(m.group(1), 0) + int(m.group(4))
             m = re.match(r"^Error: Invariant (\w+) is violated", line)
